@@ -367,6 +367,31 @@ theorem nothing_else (jar : Jar) (ns : Nests) (out : Jar) (h : nestJar false jar
 theorem attrs_then_rename (this : Nests) (f : JStr → JStr) (c : JClass) :
     emitClass true this f c = remapClass f (addAttrs this c) := rfl
 
+/-- "rewrites every reference … records each in an InnerClasses entry (plus EnclosingMethod)": after renaming with the class
+map `f` (the jar-side map, `remap_names_partial`) the attributes synthesised for a nested class carry the NEW names — the
+last `InnerClasses` entry names the new name of the class and, for an inner class, the new name of its enclosing class;
+the `EnclosingMethod` attribute of an anonymous or local class names the new name of the enclosing class (also when there
+is no enclosing method) and the method with its descriptor rewritten -/
+theorem attrs_renamed (this : Nests) (f : JStr → JStr) (c c' : JClass) (n : Nest)
+    (h : emitClass true this f c = some c') (hg : get this c.name = some n)
+    (h1 : n.className.head? ≠ some LBRACK) (h2 : n.enclClass.head? ≠ some LBRACK) :
+    (∃ ics, c'.innerClasses = some (ics ++ [renamedInnerClass f n])) ∧
+    ((n.kind = .anonymous ∨ n.kind = .local) → ∃ em, renamedEnclMethod f n = some em ∧ c'.enclosingMethod = some em) :=
+  emitClass_true_attrs this f c c' n h hg h1 h2
+
+/-- an anonymous class without enclosing method whose enclosing class is itself nested: the attribute names `Top$Mid` -/
+example :
+    let ns : Nests :=
+      [{ kind := .inner, className := jstr "A", enclClass := jstr "Top", enclMethod := none, innerName := jstr "Mid", access := 0 },
+       { kind := .anonymous, className := jstr "B", enclClass := jstr "A", enclMethod := none, innerName := jstr "1", access := 0 }]
+    let jar : Jar := [(jstr "Top.class", .cls (newClass 8 (jstr "Top"))), (jstr "A.class", .cls (newClass 8 (jstr "A"))),
+                      (jstr "B.class", .cls (newClass 8 (jstr "B")))]
+    (match nestJar true jar ns with
+     | .ok out => (AList.lookup (jstr "Top$Mid$1.class") out).map (fun e => match e with
+         | .cls c => c.enclosingMethod | _ => none) == some (some { cls := jstr "Top$Mid", method := none })
+     | .error _ => false) = true := by
+  decide
+
 /-- a class entry `<c>.class` is renamed to `<f c>.class` -/
 theorem entry_renamed (f : JStr → JStr) (c : JStr) : remapEntryName f (c ++ DOT_CLASS) = f c ++ DOT_CLASS :=
   remapEntryName_class f c
